@@ -222,5 +222,11 @@ func c16MapEnvs() []interface{} {
 		map[string]C16WithUnexp{"w": {}},
 		map[string]string{"s": "x", "Name": "y"},
 		map[string]map[string]interface{}{"m": {"k": 1}},
+		// a DECLARED map type: its members come from the VALUE, so two values of one type have different tables
+		C16Vars{"a": 1, "name": "x", "format": func(i int) string { return "" }, "only1": true},
+		C16Vars{"a": "str", "name": 2.5, "format": "not a function", "only2": []int{1}},
+		C16Vars{"b": &C16Inner{}},
 	}
 }
+
+type C16Vars map[string]interface{}
